@@ -183,11 +183,11 @@ class Pit(Field):
         """
         if x0 is not None:
             factor = np.random.rand(*obs.shape) * (obs == x0) + (obs != x0)
-            pit *= factor
+            pit = pit * factor
         if x1 is not None:
             # Same for the upper discrete mass
             factor = np.random.rand(*obs.shape) * (obs == x1) + (obs != x1)
             pit = 1 - pit
-            pit *= factor
+            pit = pit * factor
             pit = 1 - pit
         return pit
